@@ -145,6 +145,99 @@ def run_frames(res, repo, rules, table, findings_known, replay=None):
                                'detail': '%s: %s (line %d of %s.py)' % (f.rule, f.detail, f.line, f.module), 'witness': f.to_json()})
 
 
+def replace_chain(repo, qual):
+    """the (pattern, replacement) sequence of the str.replace calls of a function, in evaluation order"""
+    import ast
+    from .interp import Interp
+    I = Interp(repo, D.VERIF)
+    fn = I.find_function(qual)
+    if fn is None:
+        return None
+    chain = []
+
+    def visit(e):
+        if isinstance(e, ast.Call) and isinstance(e.func, ast.Attribute) and e.func.attr == 'replace':
+            visit(e.func.value)
+            if len(e.args) >= 2 and all(isinstance(a, ast.Constant) and isinstance(a.value, str) for a in e.args[:2]):
+                chain.append((e.args[0].value, e.args[1].value))
+            else:
+                chain.append(('?', '?'))
+            for a in e.args:
+                visit(a)
+            return
+        for ch in ast.iter_child_nodes(e):
+            visit(ch)
+    for stmt in fn[1].body:
+        visit(stmt)
+    return chain
+
+
+def run_lean(res, repo, lean_file, chains):
+    t0 = time.time()
+    p = subprocess.run(['lean', os.path.join(D.VERIF, lean_file)], capture_output=True, text=True, timeout=1800, cwd=D.VERIF)
+    errs = [l for l in (p.stdout + p.stderr).split('\n') if ': error' in l]
+    ok = p.returncode == 0 and not errs
+    import re as _re
+    thms = _re.findall(r'^theorem\s+(\S+)', open(os.path.join(D.VERIF, lean_file)).read(), _re.M)
+    sorry = 'sorry' in open(os.path.join(D.VERIF, lean_file)).read()
+    res.lemmas.append({'file': lean_file, 'theorems': thms, 'kernel_checked': ok and not sorry, 'wall_s': round(time.time() - t0, 1),
+                       'checker': 'lean 4 (Mathlib)', 'errors': errs[:3]})
+    if not ok or sorry:
+        res.crashes.append('lemma library %s does not check: %s' % (lean_file, (errs or [p.stderr[-200:]])[0]))
+        return
+    res.obligations += len(thms)
+    res.discharged += len(thms)
+    res.solver['by_backend']['lean'] = res.solver['by_backend'].get('lean', 0) + len(thms)
+    res.trusted.add("python's str.replace(c, w) with a one-character pattern is List.flatMap (if x = c then w else [x]) (transcription of the replace chain into Lean; the chain is re-extracted from the source and compared each run)")
+    for qual, expected, thm in chains:
+        got = replace_chain(repo, qual)
+        res.obligations += 1
+        name = 'lean-model#chain-matches-source@%s' % qual
+        if got == [tuple(x) for x in expected]:
+            res.discharged += 1
+            if len(res.samples) < 14:
+                res.samples.append({'obligation': name, 'status': 'discharged', 'theorem': thm, 'chain': got})
+        else:
+            # the Lean theorem no longer speaks about this code; the SMT obligations (len <= 3) decide
+            res.undecided.append({'obligation': name, 'why': 'replace chain of the source %r differs from the chain of theorem %s %r' % (got, thm, expected)})
+
+
+def run_taint(res, repo, cfg, findings):
+    from .taint import Taint
+    t = Taint(os.path.join(repo, cfg['file']), cfg['escape'], clean_names=cfg.get('clean_names', {}), clean_calls=cfg.get('clean_calls', {}))
+    sites = t.write_sites()
+    res.extra.setdefault('taint', []).append({'file': cfg['file'], 'write_sites': len(sites), 'dirty': [w for w in sites if not w['clean']]})
+    res.trusted.add('taint analysis of %s is syntactic: a hole is clean when it is a literal, an integer conversion, or went through %s' % (cfg['file'], '/'.join(cfg['escape'])))
+    for w in sites:
+        res.obligations += 1
+        allowed = [a for a in cfg.get('allow', []) if a[0] == w['function'] and set(w['dirty_holes']) <= set(a[1])]
+        if w['clean'] or allowed:
+            res.discharged += 1
+            if len(res.samples) < 16 and not w['clean']:
+                res.samples.append({'obligation': w['obligation'], 'status': 'allowed: ' + allowed[0][2]})
+            continue
+        rdir = os.environ.get('PYVC_REPLAY_DIR') or 'replay'
+        import hashlib
+        path = os.path.join(rdir, res.pid, 'taint-%s.json' % hashlib.sha1(w['obligation'].encode()).hexdigest()[:8])
+        full = path if os.path.isabs(path) else os.path.join(D.VERIF, path)
+        os.makedirs(os.path.dirname(full), exist_ok=True)
+        spec = {'property': res.pid, 'obligation': w['obligation'], 'site': w, 'verifier_output': 'unescaped holes: %s' % w['dirty_holes']}
+        confirmed = False
+        if cfg.get('replay'):
+            env = dict(os.environ)
+            env.pop('PYTHONPATH', None)
+            pr = subprocess.run([D.VENV_PY, os.path.join(D.VERIF, 'pyvc', cfg['replay']), repo], capture_output=True, text=True, timeout=900, env=env)
+            try:
+                out = json.loads(pr.stdout.strip().split('\n')[-1])
+                spec['native'] = out
+                confirmed = bool(out.get('confirmed'))
+            except Exception:
+                spec['native'] = {'error': (pr.stdout + pr.stderr)[-300:]}
+        json.dump(spec, open(full, 'w'), indent=1)
+        res.violations.append({'obligation': w['obligation'], 'replay': path, 'confirmed': confirmed,
+                               'detail': 'line %d: unescaped value(s) %s reach the output' % (w['line'], w['dirty_holes']), 'witness': w})
+
+
 def run_bounded(res, repo, spec, seed, tier):
     env = dict(os.environ)
     env.pop('PYTHONPATH', None)
@@ -220,6 +313,11 @@ def main(argv):
             res.extra['cpython_crosscheck'] = cc
         if P.get('rxdiff'):
             run_rxdiff(res, a.repo, P['rxdiff'], 7 if a.tier == 'quick' else 9)
+        if P.get('lean'):
+            from contracts import escape as CE
+            run_lean(res, a.repo, P['lean'], [c for c in CE.LEAN_CHAINS if c[0] in P.get('functions', [])])
+        if P.get('taint'):
+            run_taint(res, a.repo, P['taint'], findings)
         if P.get('frames'):
             from contracts import frames as CF
             fr = P['frames']
